@@ -128,7 +128,9 @@ for isa, arch in (("x86", "zen1"), ("aarch64", "n1")):
         tpv = Fraction(1, n) * Fraction(f)
         ltv = Fraction(k) * Fraction(g)
         layout = ("tp-lt", "lt-tp", "tp-only", "lt-only")[i % 4] if i >= len(allcodes) // 2 else "tp-lt"
-        forms.append((f"vt{i}", [c1, c2], tpv, ltv, layout))
+        # names: mostly neutral, some whose mnemonic contains the letters of the measurement tags
+        name = f"vt{i}" if i % 7 else ("vtFCVTPS", "vtMULTx", "vtTPLT", "vtltp")[(i // 7) % 4] + str(i)
+        forms.append((name, [c1, c2], tpv, ltv, layout))
     lines = ["Using frequency 2.50GHz."]
     for name, ops, tpv, ltv, layout in forms:
         tpl = f"{name}-{'_'.join(ops)}-TP: {fmt(tpv)} (clock cycles)    [DEBUG - result: 0.007813]"
